@@ -16,7 +16,7 @@ import os
 
 import numpy as np
 
-from ..core import guarded
+from ..core import guarded as _core_guarded, MachineryError
 from ..numeric import exact_moments, fr, fx_req
 
 KINDS = ['point', 'line', 'tri', 'quad', 'tet', 'hex', 'wedge']
@@ -24,6 +24,16 @@ KINDS = ['point', 'line', 'tri', 'quad', 'tet', 'hex', 'wedge']
 NMAX = {'point': 3, 'line': 22, 'tri': 22, 'quad': 22, 'tet': 12, 'hex': 16, 'wedge': 22}
 DIM = {'point': 0, 'line': 1, 'tri': 2, 'quad': 2, 'tet': 3, 'hex': 3, 'wedge': 3}
 FACTORS = {'quad': ['line', 'line'], 'hex': ['line', 'line', 'line'], 'wedge': ['tri', 'line']}
+
+
+def guarded(fn, seconds):
+    """core.guarded with a generous alarm; an expired alarm says something about the MACHINE (load, a slow box), not
+    about the library -- none of the calls driven here can loop -- so it is a machinery failure (exit 2), never an
+    observation a clause could turn into a VIOLATION."""
+    res, err = _core_guarded(fn, 10 * seconds)
+    if err == 'Timeout':
+        raise MachineryError('per-call alarm expired (%d s): machine too slow or overloaded' % (10 * seconds))
+    return res, err
 
 RULE = ('scenario = one (reference cell, order) pair; the whole finite space kinds x orders -1..NMAX x promised '
         'monomials is enumerated. Non-trivial = the library returned a rule (not an exception) and the order '
@@ -41,10 +51,8 @@ def monomials(kind, n):
     d = DIM[kind]
     if kind == 'point':
         return [()]
-    if kind in ('tri', 'tet'):
+    if kind in ('tri', 'tet', 'wedge'):            # prism: total degree, as the statement says for every cell
         return [a for a in itertools.product(range(m + 1), repeat=d) if sum(a) <= m]
-    if kind == 'wedge':
-        return [a for a in itertools.product(range(m + 1), repeat=3) if a[0] + a[1] <= m]
     return list(itertools.product(range(m + 1), repeat=d))
 
 
@@ -180,7 +188,7 @@ def run(ctx):
     return ctx.finish(rule=RULE, assumptions=[
         'orders are enumerated up to NMAX (line/tri/quad/wedge 22, tet 12, hex 16, point 3); segment, quadrilateral '
         'and hexahedron rules are generated for any order, larger orders are not examined',
-        'prism rules are asked to integrate total degree <= n in the triangle plane times degree <= n along the axis',
+        'prism rules are asked to integrate total degree <= n (not the larger product space the library\'s rule also integrates)',
         'mode L: an error below 2^-42 of the cell measure is invisible',
         'TLC 1.8.0 and the CommunityModules Json module are trusted'],
         exhaustive=True)
